@@ -183,6 +183,9 @@ pub fn resolve(sub: &Sub, r: usize, c: usize, store: &MStore) -> Result<Vec<usiz
 pub fn eval(e: &Expr, s: &MStore) -> Ev {
   let var = |n: &str| -> Result<SV, Ev> { s.get(n).map(|b| b.v.clone()).ok_or(Ev::Fail("undefined-var".into())) };
   match e {
+    // a matrix literal of a signed integer kind has no spelling the pinned Mech accepts
+    // (`[1<i64> 2<i64>]` is rejected by concatenation), so the model does not predict it
+    Expr::Lit(SV::Mat(ek, ..)) if NK::from_name(ek).map(|k| k.is_signed()).unwrap_or(false) => Ev::Unsure,
     Expr::Lit(v) => Ev::Val(v.clone()),
     Expr::Var(n) => match var(n) { Ok(v) => Ev::Val(v), Err(e) => e },
     Expr::VarOp(n, op, lit) => match var(n) { Ok(v) => binop(&v, *op, lit), Err(e) => e },
@@ -415,7 +418,8 @@ impl Model {
               return if both_numeric { self.either_unknown(name, "f6-source-kind", combo) } else { self.must_err("f6-source-kind", combo) };
             }
             let mut distinct = pos.clone(); distinct.sort(); distinct.dedup();
-            if !vector || !one || sd.len() != pos.len() || distinct.len() != pos.len() { return self.either_unknown(name, "unsure-vector-source", combo); }
+            if vector && one && sd.len() != pos.len() { return self.either_unknown(name, "vector-source-length-mismatch", combo); }
+            if !vector || !one || distinct.len() != pos.len() { return self.either_unknown(name, "unsure-vector-source", combo); }
             for (i, p) in pos.iter().enumerate() { nd[*p] = sd[i].clone(); }
             let mut st = s.clone();
             st.get_mut(name).unwrap().v = SV::Mat(ek.clone(), r, c, nd);
@@ -423,6 +427,12 @@ impl Model {
             let stated = matches!(sub, Sub::One(Ix::V(_)) | Sub::One(Ix::M(_)) | Sub::One(Ix::Var(_)));
             let mut v = self.verdict(if stated { Must::Ok } else { Must::Either }, After::Store(st), combo);
             v.addressed = pos;
+            let by_mask = match sub {
+              Sub::One(Ix::M(_)) => true,
+              Sub::One(Ix::Var(y)) => matches!(s.get(y).map(|b| &b.v), Some(SV::Mat(k, ..)) if k == "bool"),
+              _ => false,
+            };
+            if by_mask { v.fault = Some("mask-with-vector-source".into()); }
             return v;
           }
           _ => return self.must_err("f6-source-kind", combo),
